@@ -84,6 +84,11 @@ func corpus(seed int64, n int) []doc {
 		}
 		if os.Getenv("VERIF_WIDE") != "" { // many different field names of varying length: a token table of several blocks
 			docs[i].tokens = append(docs[i].tokens, wideTokens(seed, i)...)
+			if os.Getenv("VERIF_SKEW") != "" {
+				for j := 0; j < 50; j++ {
+					docs[i].tokens = append(docs[i].tokens, fmt.Sprintf("sk%d:s%06d", seed, i*50+j))
+				}
+			}
 		}
 	}
 	return docs
@@ -95,6 +100,22 @@ func wideTokens(seed int64, i int) []string {
 	for j := 0; j < 6; j++ {
 		name := fmt.Sprintf("f%d_%04d_%d%s", seed, i, j, strings.Repeat("n", (i*7+j*13)%23))
 		res = append(res, name+":v"+strings.Repeat("w", (i+j*5)%11))
+	}
+	// one field shared by all documents whose values are longer than 32 bytes and share their first 36 bytes
+	res = append(res, fmt.Sprintf("lid%d:%s%06d", seed, strings.Repeat("p", 36), i))
+	if os.Getenv("VERIF_SKEW") != "" {
+		res = append(res, skewLong(seed, i)...)
+	}
+	return res
+}
+
+// skewLong: with VERIF_SKEW every document adds, to ONE field, 50 short values and 8 values of 70 bytes that sort behind
+// all the short ones: the field's token list ends in a long run of long values (a token block far beyond 64 KiB of payload
+// when blocks are cut by token count).  Returned are the long ones (the short ones are added by corpus()).
+func skewLong(seed int64, i int) []string {
+	var res []string
+	for j := 0; j < 8; j++ {
+		res = append(res, fmt.Sprintf("sk%d:z%s%05d_%d", seed, strings.Repeat("q", 62), i, j))
 	}
 	return res
 }
@@ -1681,6 +1702,10 @@ func main() {
 			// searches by the fields of a sample of documents
 			os.Setenv("VERIF_WIDE", "1")
 			h.crashSweep(false, false, o.Pick(400, 1200), seed+9, rng, false)
+			// the same with a skewed field: 20000 short values followed by a sorted run of 3200 values of 70 bytes
+			os.Setenv("VERIF_SKEW", "1")
+			h.crashSweep(true, false, 400, seed+11, rng, false)
+			os.Unsetenv("VERIF_SKEW")
 			os.Unsetenv("VERIF_WIDE")
 		}
 		if only("concurrent") {
